@@ -64,17 +64,22 @@ func (w wrapCoder) Error() string       { return "wrap coder: " + w.inner.Error(
 func (w wrapCoder) ErrCode() jrpc2.Code { return w.code }
 func (w wrapCoder) Unwrap() error       { return w.inner }
 
+// msgVariants are the character classes of error texts (all valid UTF-8: every one of them must arrive unchanged)
+var msgVariants = []string{`<&> "q"`, "tab\tnl\ncr\r", "ctl\x01\a\v\x7f\x00", "sep\u2028\u2029", "astral😀\U000e0001", `back\slash/`, "é ü 漢", ""}
+
+func msgText(k int) string { return msgVariants[((k%len(msgVariants))+len(msgVariants))%len(msgVariants)] }
+
 var dataVariants = []any{nil, json.RawMessage(`null`), 17, map[string]any{"a": []int{1, 2}, "b": "x y"}, "text"}
 
 func build(t Tree, k int) error {
 	switch t.K {
 	case "J":
-		e := &jrpc2.Error{Code: jrpc2.Code(t.C), Message: fmt.Sprintf("jerr %d <&> \"q\"", k)}
+		e := &jrpc2.Error{Code: jrpc2.Code(t.C), Message: fmt.Sprintf("jerr %d %s", k, msgText(k/len(dataVariants)))}
 		return e.WithData(dataVariants[k%len(dataVariants)])
 	case "K":
 		return jrpc2.Code(t.C).Err()
 	case "V":
-		return valCoder{jrpc2.Code(t.C), "value coder"}
+		return valCoder{jrpc2.Code(t.C), "value coder " + msgText(k)}
 	case "P":
 		return &ptrCoder{jrpc2.Code(t.C)}
 	case "Can":
@@ -82,7 +87,7 @@ func build(t Tree, k int) error {
 	case "Dl":
 		return context.DeadlineExceeded
 	case "Plain":
-		return errors.New("plain failure")
+		return errors.New("plain failure " + msgText(k))
 	case "W":
 		if k%2 == 0 {
 			return fmt.Errorf("context: %w", build(t.Sub[0], k))
